@@ -175,7 +175,7 @@ CHECKS = {
              "(tick 100 000 at 24 PPQN) and was repaired (fb10b52: time from the tick count; cbcd7cb: compensated summation of event "
              "times); the long runs (up to 2.1*10^6 ticks, exact and inexact durations) now follow the closed form, which for "
              "floats is evidence, not proof.",
-        technique="Lean 4 induction (onset invariant) + closed-form oracle in exact rationals + differential correspondence"),
+        technique="Lean 4 induction (onset invariant; float clock and compensated event-time sum over an abstract rounding function) + closed-form oracle in exact rationals + differential correspondence"),
     "C05": dict(
         text="Theorems: the scheduled start time is the first grid point at or after the call time plus delay (on-grid counts as "
              "quantized, quantize 0 = call time), fires on the first tick at or after it; explicit args override defaults, latency "
